@@ -78,6 +78,24 @@ CHECKS = {
         text="TLC checks exactness on bilinear fields, convexity, masked nodes ignored and the outside rule for every small field/mask/position in the bound; the real sample2D is validated exactly on random integer fields/masks/positions (incl. outside with substitute 0, undefined values), xy2ll exactly on lattice probes of curved coordinate tables for random sub-rectangles, the ll2xy round trip and releases given by lon/lat through their post-condition (interpolated lon/lat at the resulting position equal the given ones within the solver tolerance), and lon/lat written with a record (sparse and dense) as the bilinear value at X, Y of the same record.",
         note="Newton convergence itself is not modelled; every recorded inversion is checked through its residual. Coordinate tables on a 2^-10 degree lattice.",
         design="6 C16"),
+    "C15": dict(
+        level="model_checking",
+        technique="TLA+ spec Tracker (MoveV / Reflect) model-checked with TLC (MC_Tracker: InColumn for all depths and displacements); exact lattice trace validation of the real Tracker with scripted forcing and scripted random generator (TrackTrace)",
+        text="TLC checks 0 <= Z' <= h for every depth, bottom depth and vertical displacement |dz| < h in the bound; real tracker steps with vertical diffusion (injected draws) and/or vertical advection over cell-to-cell varying bathymetry, start depths at 0 / near 0 / mid / near h / h, with simultaneous horizontal advection across cells, are validated by TLC: the new depth equals the reflection about surface and bottom of the cell occupied when the step began, lies in that water column whenever |dz| < h, and is unchanged with both switched off.",
+        note="Scripted forcing: velocities uniform per particle so that displacements are on the lattice. The composition aspect (stale per-particle forcing arrays) is C14.",
+        design="6 C15"),
+    "C11": dict(
+        level="other",
+        technique="Tracker.tla random-walk algebra bound to the real Tracker by exact lattice trace validation with a scripted random generator (TrackTrace); seeded statistics of 10^5-particle clouds evaluated by TLC (StatTrace) for the distributional residue",
+        text="Decided exactly: displacement = sqrt(2 D dt) xi / dx per horizontal direction and sqrt(2 Dz dt) xi in depth for (D, dt) over four orders of magnitude, one fresh standard-normal draw per particle x direction x step (U/V block order either way), D and Dz kept apart when both are on, no draw and identical results when the coefficients are zero. Not decidable with TLA+: that numpy's generator is standard normal and independent - covered by seeded statistics (mean, variance 2Dt / 2Dzt, U-V covariance, lag-1) inside 6 sigma bands.",
+        note="level 'other': exact conformance for the code's contribution + exploration-level statistics for the generator (DESIGN 7).",
+        design="6 C11"),
+    "C20": dict(
+        level="fault_enumeration",
+        technique="TLA+ spec Startup (validity predicate over the described set-up, reusing Clock/Release) decides validity; StartupTrace validates the outcome of ladim.main for every base scenario x every single fault",
+        text="Every base scenario {forward, reversed} x {single, multi-file} x {discrete, continuous} x each of 24 single faults is materialised and run through ladim.main with recording plug-ins; TLC decides from the description of the faulted set-up whether it is valid and requires: invalid => error exit before the first step and no output record; valid => the run completes.",
+        note="Any error exit during start-up counts as refusal. Single faults only.",
+        design="6 C20"),
 }
 
 NOT_YET = {}
